@@ -752,7 +752,10 @@ window_offset(determine_correct_offset(lg_k, num_coupons)),
 first_interesting_column(first_interesting_column),
 kxp(kxp),
 hip_est_accum(hip_est_accum)
-{}
+{
+  // the image of an empty sketch carries no kxp: it is k, as in a newly constructed sketch
+  if (num_coupons == 0) this->kxp = 1 << lg_k;
+}
 
 template<typename A>
 uint8_t cpc_sketch_alloc<A>::get_preamble_ints(uint32_t num_coupons, bool has_hip, bool has_table, bool has_window) {
